@@ -32,6 +32,7 @@ import (
 	"time"
 
 	v2 "github.com/hydraide/hydraide/app/core/hydra/swamp/chronicler/v2"
+	"github.com/hydraide/hydraide/app/core/settings"
 	"github.com/hydraide/hydraide/app/name"
 	"github.com/hydraide/hydraide/app/server/gateway"
 	"github.com/hydraide/hydraide/app/server/telemetry"
@@ -143,6 +144,8 @@ func seedAll(gw *gateway.Gateway, w *world, tc telemetry.Collector) error {
 			return err
 		}
 	}
+	// immediate write mode: the gateway replaces a zero interval by its default, the settings API takes it
+	gw.SettingsInterface.RegisterPattern(name.Load("c26/imm/*"), false, 3600, &settings.FileSystemSettings{WriteIntervalSec: 0, MaxFileSizeByte: 8192})
 	if err := seedTargets(gw, w); err != nil {
 		return err
 	}
@@ -350,7 +353,11 @@ func (b *batchRun) body(bubble bool) {
 					after = "it returned only when the caller gave up (context cancelled)"
 				}
 				if b.count {
-					b.violate("hang", class, what+" had not returned at quiescence 60 virtual seconds after it was issued; "+after, gc, stack)
+					kind := "hang"
+					if what != "the request" {
+						kind, class = "follow-up-wedged", ri.Name+"@"+class
+					}
+					b.violate(kind, class, what+" had not returned at quiescence 60 virtual seconds after it was issued; "+after, gc, stack)
 				}
 				if !fin {
 					// the goroutine can never be released: this bubble cannot end
@@ -528,6 +535,8 @@ func (b *batchRun) body(bubble bool) {
 					if bubble {
 						time.Sleep(fu.Sleep)
 						synctest.Wait()
+					} else if fu.Name == "flush-wait" {
+						time.Sleep(1200 * time.Millisecond) // lets the 1 s write tick happen; decides nothing
 					}
 					continue
 				}
@@ -632,6 +641,16 @@ func (b *batchRun) body(bubble bool) {
 		}
 	}
 
+	// what a restart must bring back: the storable keys each persistent swamp holds right now
+	memKeys := map[string]map[string]bool{}
+	if !anyTimeout && !strings.Contains(b.ri.Name, "RegisterSwamp") {
+		for _, t := range w.Targets {
+			if ks, ok := swampKeys(&gw, t); ok {
+				memKeys[t] = ks
+			}
+		}
+	}
+
 	// shutdown
 	stop := func(rr *rig.Rig, cancel context.CancelFunc, what string) bool {
 		cancel()
@@ -720,6 +739,34 @@ func (b *batchRun) body(bubble bool) {
 			b.outF = append(b.outF, finding{"canary-changed", "after-restart", "content of the canary swamp differs after the restart (" + canaryDiff(canary0, now) + ") although no request addressed it"})
 		}
 	}
+	for t, want := range memKeys {
+		got, ok := swampKeys(&gw2, t)
+		if !ok {
+			got = map[string]bool{}
+		}
+		var lost, extra []string
+		for k := range want {
+			if k != "" && len(k) <= 65535 && !got[k] {
+				lost = append(lost, short(k, 40))
+			}
+		}
+		for k := range got {
+			if !want[k] {
+				extra = append(extra, short(k, 40))
+			}
+		}
+		sort.Strings(lost)
+		sort.Strings(extra)
+		if len(lost) > 0 {
+			b.outF = append(b.outF, finding{"reload-keys", "lost", fmt.Sprintf("swamp %s held storable keys %v before shutdown that are gone after the restart", t, lost)})
+		}
+		if len(extra) > 0 {
+			b.outF = append(b.outF, finding{"reload-keys", "resurrected", fmt.Sprintf("swamp %s holds keys %v after the restart that it did not hold before shutdown", t, extra)})
+		}
+	}
+	if b.count {
+		c.Count("swamps_key_set_compared_after_restart", int64(len(memKeys)))
+	}
 	if !stop(r2, func() {}, "after-reload") && bubble {
 		b.report(executed)
 		fmt.Printf("C26HANGEXIT %d %d\n", b.ui, -1)
@@ -775,6 +822,23 @@ func readClaimState(gw *gateway.Gateway, t string) claimState {
 		st.body[tr.GetKey()] = string(tr.GetBytesVal())
 	}
 	return st
+}
+
+// swampKeys returns the key set of an existing swamp (false: it does not exist / cannot be read).
+func swampKeys(gw *gateway.Gateway, t string) (map[string]bool, bool) {
+	ex, err := gw.IsSwampExist(ctxBG, &hydrapb.IsSwampExistRequest{IslandID: safeIsland(t), SwampName: t})
+	if err != nil || ex == nil || !ex.GetIsExist() {
+		return nil, false
+	}
+	resp, err := gw.GetAll(ctxBG, &hydrapb.GetAllRequest{IslandID: safeIsland(t), SwampName: t})
+	if err != nil || resp == nil {
+		return nil, false
+	}
+	ks := map[string]bool{}
+	for _, tr := range resp.GetTreasures() {
+		ks[tr.GetKey()] = true
+	}
+	return ks, true
 }
 
 func missing(want, got map[string]bool) []string {
@@ -973,11 +1037,13 @@ func wedgeWatch(c *rig.Check) {
 			since = time.Now() // busy, not wedged: look again later
 			continue
 		}
-		kind := "hang"
+		kind, class := "hang", "mutex@"+f1
 		if strings.Contains(rpc, "Expired") || strings.Contains(rpc, "Shift") {
 			kind = "claim-path-wedged"
+		} else if what != "the request" {
+			kind, class = "follow-up-wedged", rpc+"@mutex@"+f1
 		}
-		b.violate(kind, "mutex@"+f1, what+" ("+rpc+") is parked in a mutex Lock while no goroutine of the engine can run: whoever took the mutex left without unlocking it, the request can never return", gc, blk)
+		b.violate(kind, class, what+" ("+rpc+") is parked in a mutex Lock while no goroutine of the engine can run: whoever took the mutex left without unlocking it, the request can never return", gc, blk)
 		fmt.Printf("C26HANGEXIT %d %d\n", b.ui, idx)
 		c.Finish()
 		os.Exit(3)
